@@ -250,8 +250,9 @@ def hash_grid_search(log):
     return {'witness': None, 'grid_points': len(ns) + len(extra)}
 
 
-def int_float_grid_search(log):
-    """exact comparison of ints with floats (Python compares them exactly)."""
+def int_float_grid_search(log, exact_only=False):
+    """exact comparison of ints with floats (Python compares them exactly).  exact_only: only ints that a double holds
+    exactly (there the comparison through as_float is exact, i.e. the open finding about inexact big ints cannot show)."""
     ints, floats = set(), set()
     for k in (31, 32, 52, 53, 54, 62, 63, 64, 65, 100):
         for d in (-3, -2, -1, 0, 1, 2, 3):
@@ -261,6 +262,8 @@ def int_float_grid_search(log):
             floats.add(sgn * float(1 << k))
             floats.add(sgn * (float(1 << k) + 0.5) if k < 52 else sgn * float((1 << k) + (1 << (k - 52))))
     floats |= {0.5, -0.5, 2147483648.5, -2147483649.5, float('inf'), float('-inf'), float('nan')}
+    if exact_only:
+        ints = {n for n in ints if int(float(n)) == n}
     cases = [(n, f) for n in sorted(ints) for f in sorted(floats, key=lambda x: (x != x, x))]
     exprs = ['((%d) == %s, (%d) < %s, %s < (%d))' % (n, flit(f), n, flit(f), flit(f), n) for n, f in cases]
     outs = eval_many(exprs, log)
@@ -600,6 +603,14 @@ def find_witness(prop, v, repo, log):
     if 'C09.hash' in oid or 'get_hash' in fn or 'write_hash' in fn:
         r = hash_grid_search(log)
         r['search'] = 'n vs float(n) for exactly representable n around 2^k: equality and dict-key interchangeability on the real library'
+        return r
+    if 'C09.value.' in oid:
+        r = hash_grid_search(log)
+        if not r.get('witness'):
+            r2 = int_float_grid_search(log, exact_only=True)
+            r2['grid_points'] = r2.get('grid_points', 0) + r.get('grid_points', 0)
+            r = r2
+        r['search'] = 'n vs float(n) for exactly representable n around 2^k (equality, dict keys), then exactly representable ints around 2^31..2^100 x floats around the same powers: ==, < on the real library vs exact comparison'
         return r
     if 'C09.cmp.' in oid or 'NumRef' in fn:
         r = int_float_grid_search(log)
